@@ -535,6 +535,22 @@ impl<'a> Exec<'a> {
             let m = f.model().map(|m| self.model_idx(&m)).unwrap_or("?".into());
             out(&format!("F {} model={} ver={}", k, m, f.version() as u32));
         }
+        // the depth-first iterators: model- and file-scoped, unlimited and max_depth 2
+        let show = |v: Vec<(usize, Element)>| -> String { v.iter().map(|(d, e)| format!("{}:{}", d, self.hnum(e))).collect::<Vec<_>>().join(",") };
+        for (mi, m) in self.models.iter().enumerate() {
+            for md in [0usize, 2] {
+                let v: Vec<(usize, Element)> = if md == 0 { m.elements_dfs().collect() } else { m.elements_dfs_with_max_depth(md).collect() };
+                out(&format!("D {} md={} [{}]", mi, md, show(v)));
+            }
+        }
+        for (k, f) in self.files.iter().enumerate() {
+            if f.model().is_ok() {
+                for md in [0usize, 2] {
+                    let v: Vec<(usize, Element)> = if md == 0 { f.elements_dfs().collect() } else { f.elements_dfs_with_max_depth(md).collect() };
+                    out(&format!("DF {} md={} [{}]", k, md, show(v)));
+                }
+            }
+        }
         if self.serialize_obs {
             for (k, f) in self.files.iter().enumerate() {
                 match f.serialize() {
